@@ -93,7 +93,7 @@ M = [
  ('R2C-M8-swizzle-default-xy', 'src/swizzles/vec_traits.rs', r'11s/self/self.yx()/', ['C16']),
  ('R2C-M10-anybitpattern-bvec4a', 'src/features/impl_bytemuck.rs', r'10s/^/unsafe impl AnyBitPattern for crate::BVec4A {}\nunsafe impl Zeroable for crate::BVec4A {}\n/', ['C19', 'C15']),
  ('R2C-M11-serde-bvec4a-u32', 'src/features/impl_serde.rs', r'967s/\[bool; 4\]/[u32; 4]/', ['C19']),
- ('R2C-M14-bvec4a-pub-field', 'src/bool/sse2/bvec4a.rs', r's/pub struct BVec4A(pub(crate) __m128);/pub struct BVec4A(pub __m128);/', ['C15']),
+ # R2C-M14 (BVec4A(pub __m128)) is not counted: the scalar-math BVec3A/BVec4A already expose pub u32 lanes upstream, so an exposed representation does not break C15, which quantifies over the 2^N valid masks
  ('R2C-M51-vec3a-clamp-length-max-strict', 'src/f32/sse2/vec3a.rs', r'919s/0.0 <= max/0.0 < max/', ['C20']),
  ('R2C-M5-debug-glam-assert-feature-name', 'src/macros.rs', r's/feature = "debug-glam-assert"/feature = "debug_glam_assert"/', ['C20', 'C07']),
  ('R2C-M7-bvec3-display-literal', 'src/bool/bvec3.rs', r's/write!(f, "\[{}, {}, {}\]", arr\[0\], arr\[1\], arr\[2\])/write!(f, "({}, {}, {})", arr[0], arr[1], arr[2])/', ['C15']),
